@@ -284,14 +284,55 @@ func registerModels(e *Engine) {
 		c.setFailed(Not(ok))
 		l := e.allocLoc(c.st)
 		e.ghostSet(c.st, "filePath", StringS, l, p)
+		e.ghostSet(c.st, "forWriting", BoolS, l, False)
+		e.ghostSet(c.st, "fileClosed", BoolS, l, False)
 		return c.ret(Ite(ok, l, NilLoc), Ite(ok, NilIface, MkIface(e.ghostTag("liberr"), Ctor(AnyS, "a_int", uf("readErr", IntS, p)))))
 	}
 	m["os.Open"] = openFile
 	m["os.OpenFile"] = openFile
 	m["(*os.File).Close"] = func(c *CallCtx) *Term {
-		// closing a file opened for reading: no effect on tracked state
+		// closing a file opened for reading has no effect on tracked state;
+		// the first close of a file created for writing may report a deferred
+		// write error (a primitive failure event)
+		e := c.e
 		ok := c.nondet("fclose")
+		forWriting := e.ghostGet(c.st, "forWriting", BoolS, c.args[0])
+		closed := e.ghostGet(c.st, "fileClosed", BoolS, c.args[0])
+		c.setFailed(And(forWriting, Not(closed), Not(ok)))
+		e.ghostSet(c.st, "fileClosed", BoolS, c.args[0], True)
 		return Ite(ok, NilIface, c.e.libErr("fclose"))
+	}
+	// the output file of the command line tool: which path was created, and
+	// whether a file is (still) present there
+	m["os.Create"] = func(c *CallCtx) *Term {
+		e := c.e
+		p := c.args[0]
+		ok := c.nondet("fcreate")
+		l := e.allocLoc(c.st)
+		e.ghostSet(c.st, "filePath", StringS, l, p)
+		e.ghostSet(c.st, "forWriting", BoolS, l, True)
+		e.ghostSet(c.st, "fileClosed", BoolS, l, False)
+		e.globSet(c.st, "createdPath", StringS, Ite(ok, p, e.globGet(c.st, "createdPath", StringS)))
+		e.flagSet(c.st, "outputPresent", Or(e.flagGet(c.st, "outputPresent"), And(c.pc, ok)))
+		e.flagSet(c.st, "outputCreated", Or(e.flagGet(c.st, "outputCreated"), And(c.pc, ok)))
+		return c.ret(Ite(ok, l, NilLoc), Ite(ok, NilIface, e.libErr("fcreate")))
+	}
+	m["os.Remove"] = func(c *CallCtx) *Term {
+		// assumed to succeed for a file this process has just created
+		e := c.e
+		same := Eq(c.args[0], e.globGet(c.st, "createdPath", StringS))
+		e.flagSet(c.st, "outputPresent", And(e.flagGet(c.st, "outputPresent"), Not(And(c.pc, same))))
+		return NilIface
+	}
+	// a packager obtained from the registry: its methods are those of the
+	// five Package contracts in the abstract (may fail; proposes some name)
+	m["ext:github.com/goreleaser/nfpm/v2.Packager.Package"] = func(c *CallCtx) *Term {
+		fails := c.nondet("pkgfail")
+		c.setFailed(False)
+		return Ite(fails, c.e.libErr("package"), NilIface)
+	}
+	m["ext:github.com/goreleaser/nfpm/v2.Packager.ConventionalFileName"] = func(c *CallCtx) *Term {
+		return uf("conventionalName", StringS, IfaceTag(c.args[0]), uf("anyKey", IntS, IfaceVal(c.args[0])), LocObj(c.args[1]))
 	}
 	m["os.Stat"] = func(c *CallCtx) *Term {
 		p := c.args[0]
@@ -447,6 +488,19 @@ func (e *Engine) pathClean(p *Term) *Term {
 	}
 	if p.Op == "ite" {
 		return Ite(p.Args[0], e.pathClean(p.Args[1]), e.pathClean(p.Args[2]))
+	}
+	// a choice inside a concatenation is lifted first (choices are kept
+	// factored by the term constructors)
+	if p.Op == "str.++" {
+		for i, a := range p.Args {
+			if a.Op == "ite" {
+				with := func(x *Term) *Term {
+					parts := append(append(append([]*Term{}, p.Args[:i]...), x), p.Args[i+1:]...)
+					return Concat(parts...)
+				}
+				return Ite(a.Args[0], e.pathClean(with(a.Args[1])), e.pathClean(with(a.Args[2])))
+			}
+		}
 	}
 	// leading runs of slashes collapse
 	if p.Op == "str.++" && p.Args[0].Op == "str" && strings.HasPrefix(p.Args[0].SVal, "//") {
